@@ -29,7 +29,7 @@ def viewStr (b : BookV) : String :=
   let per := b.sheets.map fun s =>
     -- blank cells (no value, no formula) carry no content
     let cells := (s.cells.filter (fun c => c.kind ≠ "" ∨ c.formula.isSome)).map cellStr
-    let links := sortStrings (s.links.map (fun l => s!"{str l.ref}/{if l.external then "e" else "l"}/{hexOf l.target}"))
+    let links := sortStrings (s.links.map (fun l => s!"{str l.ref}/{if l.external then "e" else "l"}/{hexOf l.target}/{hexOf (l.tooltip.getD [])}"))
     s!"cells={",".intercalate cells};merges={",".intercalate (s.merges.map str)};links={",".intercalate links}"
   s!"active={b.active};sheets={"|".intercalate sheets};names={"|".intercalate names} # {" # ".intercalate per}"
 
